@@ -75,11 +75,61 @@ class NotifyMonitor:
         self.extra_calls: Dict[int, List[int]] = {}          # id(accessor) -> indices of additional observers called in this update
         self.reentrant_log: List[Tuple[int, str]] = []
         self._orig = struct.replace_status_block_segment
+        self.groups: Dict[Any, Dict[str, Any]] = {}          # task running a refresh (struct.get) -> what it did
+        self._cur_group = None
+        self._orig_get = None
         mon = self
 
         def replace(offset, segment):
             return mon._update(offset, segment)
         struct.replace_status_block_segment = replace
+
+    # -- refreshes: one struct.get() is ONE update of the block -------------------------------------------------
+    def wrap_get(self) -> None:
+        """A refresh (multi-datagram transfer) is one update: its observers are called once per item and already read the refreshed
+        block.  Wraps the instance's get() to group the block updates made by the task that runs it."""
+        import asyncio
+
+        orig_get = self.struct.get
+        self._orig_get = orig_get
+        mon = self
+
+        async def get(*a, **k):
+            task = asyncio.current_task()
+            g = {"updates": [], "calls": [], "foreign": 0}
+            mon.groups[task] = g
+            try:
+                ok = await orig_get(*a, **k)
+            finally:
+                mon.groups.pop(task, None)
+            if ok:
+                mon._judge_group(g)
+            return ok
+        self.struct.get = get
+
+    def _judge_group(self, g: Dict[str, Any]) -> None:
+        w = self.world
+        if not g["updates"]:
+            return
+        if len(g["updates"]) > 1:
+            w.result.probe("refresh_applied_in_several_updates")
+        if g["foreign"]:
+            w.result.probe("refresh_interleaved_with_other_updates")
+            return
+        final = self.struct.status_block
+        lo = min(o for o, n in g["updates"])
+        hi = max(o + n for o, n in g["updates"])
+        seen: Dict[int, int] = {}
+        for acc, blk in g["calls"]:
+            seen[id(acc)] = seen.get(id(acc), 0) + 1
+            if blk[lo:hi] != final[lo:hi]:
+                w.note(self.prop, "observer-saw-old-block", f"{self.label}: during the refresh of [{lo},{hi}) the observer of {acc.tag} (@{acc.pos}) was called "
+                       f"while the structure still held old bytes of that range (the refresh was applied in {len(g['updates'])} pieces)",
+                       sig="observer-saw-old-block:refresh-in-pieces")
+            if seen[id(acc)] == 2:
+                w.note(self.prop, "notified-twice", f"{self.label}: item {acc.tag} (@{acc.pos} len {acc.length}) was notified twice by one refresh of [{lo},{hi}) "
+                       f"(applied in {len(g['updates'])} pieces)", sig="notified-twice:one-refresh")
+        w.result.probe("refresh_judged_as_one_update")
 
     # -- watching --------------------------------------------------------------------------------------------
     def watch(self, acc, times: int = 1) -> None:
@@ -193,11 +243,27 @@ class NotifyMonitor:
                             f"({self.reentrant_log[-3:]}) but was still called", sig="removed-observer-called:reentrant")
         if self.in_update:
             self.calls.append(rec)
+            if self._cur_group is not None:
+                self._cur_group["calls"].append((acc, blk))
         else:
             self.outside.append((self.world.now(), acc.tag))
 
     def _update(self, offset, segment):
         w = self.world
+        self._cur_group = None
+        if self.groups:
+            import asyncio
+
+            try:
+                task = asyncio.current_task()
+            except RuntimeError:
+                task = None
+            self._cur_group = self.groups.get(task)
+            for t, g in self.groups.items():
+                if g is self._cur_group:
+                    g["updates"].append((offset, len(segment)))
+                elif g["updates"]:
+                    g["foreign"] += 1          # another update landed between two pieces of this refresh
         old_block = self.struct.status_block
         seglen = len(segment)
         new_block = old_block[:offset] + bytes(segment) + old_block[offset + seglen:]
@@ -323,3 +389,8 @@ class NotifyMonitor:
             del self.struct.replace_status_block_segment
         except AttributeError:
             pass
+        if self._orig_get is not None:
+            try:
+                del self.struct.get
+            except AttributeError:
+                pass
